@@ -351,6 +351,24 @@ Section Checker.
     forallb (fun l => is_name l || existsb (matches (firstn l k)) (others k ids))
             (seq lower (len - lower)).
 
+  (** resolution through the two-level index: the set decides when one of its ids matches *)
+  Definition res2_spec (pfx : id) (keys all : list id) (r : res) (positions : id -> list nat) : bool :=
+    match pfx with
+    | [] => match r with RAmb => true | _ => false end
+    | _ =>
+      match count_matching pfx keys with
+      | [] => res_spec pfx all r positions
+      | k :: rest =>
+          if forallb (id_eqb k) rest
+          then match r with
+               | ROne k' ps => id_eqb k k' && lnat_eqb ps (positions k) && set_has k all
+               | RNo => negb (set_has k all)
+               | RAmb => false
+               end
+          else match r with RAmb => true | _ => false end
+      end
+    end.
+
   Definition query_ok (q : query) : bool :=
     match q with
     | QShortCommit k len => short_ok k len all_commits
@@ -364,60 +382,24 @@ Section Checker.
         end
     | QShortCommit2 k len =>
         match c_dis c with
-        | Some keys => if set_has k keys then
-                         (* unique and minimal inside the disambiguation set, at least 1 *)
-                         (1 <=? len)%nat && (len <=? length k)%nat &&
-                         forallb (fun x => negb (matches (firstn len k) x)) (others k keys) &&
-                         ((len =? 1)%nat || existsb (matches (firstn (len - 1) k)) (others k keys))
+        | Some keys => if set_has k keys then refs_short_ok k len [] keys 1
                        else short_ok k len all_commits
         | None => short_ok k len all_commits
         end
     | QResCommit2 pfx r =>
         match c_dis c with
-        | Some keys =>
-          match pfx with
-          | [] => match r with RAmb => true | _ => false end
-          | _ =>
-            match count_matching pfx keys with
-            | [] => res_spec pfx all_commits r (fun _ => [])
-            | k :: rest =>
-                if forallb (id_eqb k) rest
-                then match r with
-                     | ROne k' [] => id_eqb k k' && set_has k all_commits
-                     | RNo => negb (set_has k all_commits)
-                     | _ => false
-                     end
-                else match r with RAmb => true | _ => false end
-            end
-          end
+        | Some keys => res2_spec pfx keys all_commits r (fun _ => [])
         | None => res_spec pfx all_commits r (fun _ => [])
         end
     | QShortChange2 k len =>
         match c_dis_changes c with
-        | Some keys => if set_has k keys then
-                         (1 <=? len)%nat && (len <=? length k)%nat &&
-                         forallb (fun x => negb (matches (firstn len k) x)) (others k keys) &&
-                         ((len =? 1)%nat || existsb (matches (firstn (len - 1) k)) (others k keys))
+        | Some keys => if set_has k keys then refs_short_ok k len [] keys 1
                        else short_ok k len all_changes
         | None => short_ok k len all_changes
         end
     | QResChange2 pfx r =>
         match c_dis_changes c with
-        | Some keys =>
-          match pfx with
-          | [] => match r with RAmb => true | _ => false end
-          | _ =>
-            match count_matching pfx keys with
-            | [] => res_spec pfx all_changes r change_positions
-            | k :: rest =>
-                if forallb (id_eqb k) rest
-                then match r with
-                     | ROne k' ps => id_eqb k k' && lnat_eqb ps (change_positions k)
-                     | _ => false
-                     end
-                else match r with RAmb => true | _ => false end
-            end
-          end
+        | Some keys => res2_spec pfx keys all_changes r change_positions
         | None => res_spec pfx all_changes r change_positions
         end
     | QRefsLen k _ len =>
